@@ -87,7 +87,8 @@ class HSFZConnection:
         self.src_addr = src_addr
         self.dst_addr = dst_addr
         self.ack_timeout = ack_timeout
-        self._read_queue: asyncio.Queue[HSFZDiagFrame | int] = asyncio.Queue()
+        # None is queued by the read worker when it terminates (EOF, reset, close)
+        self._read_queue: asyncio.Queue[HSFZDiagFrame | int | None] = asyncio.Queue()
         # Frames which were taken from the queue by a consumer they were not meant for;
         # they are handed out again, in their original order, before newer frames.
         self._unread_frames: deque[HSFZDiagFrame] = deque()
@@ -189,6 +190,9 @@ class HSFZConnection:
             logger.debug(f"read worker received EOF: {e}")
         except Exception as e:
             logger.critical(f"read worker died: {e}")
+        finally:
+            # Consumers blocked on the queue would otherwise wait forever.
+            self._read_queue.put_nowait(None)
 
     async def _unpack_frame(self, frame: HSFZDiagFrame | int) -> HSFZDiagFrame:
         # I little hack, but it is either a tuple or an int….
@@ -210,7 +214,13 @@ class HSFZConnection:
 
         if len(self._unread_frames) > 0:
             return self._unread_frames.popleft()
-        return await self._read_queue.get()
+        frame = await self._read_queue.get()
+        if frame is None:
+            # The read worker is gone; wake up other consumers as well.
+            self._read_queue.put_nowait(None)
+            await self.close()
+            raise ConnectionResetError("HSFZ connection lost")
+        return frame
 
     async def read_diag_request(self) -> bytes:
         unexpected_packets: list[HSFZDiagFrame] = []
